@@ -5,7 +5,7 @@ import z3
 from .interp import (model, re_model, MODELS, CONST_MODELS, ADT_MODELS, Cell, SInt, Agg, Ref, VecV, SliceRef, StrV,
                      Closure, FnItem, Opaque, UNIT, Native, Panic, Unsupported, PyFn, some, none, ok, err, tup, scal,
                      clone, deep_clone, BoxUninit, wrap, rng, is_bool, b_and, b_or, b_not, i_ite, zt, zb, type_head, callee_key)
-from .mir import INT_TYS, strip_generics
+from .mir import INT_TYS, strip_generics, split_top
 
 
 def deref(v, n=8):
@@ -935,6 +935,16 @@ def _slice_to_vec(it, key, raw, args):
     return VecV([Cell(deep_clone(c.v)) for c in as_slice(args[0]).cells()])
 
 
+@model('impl#[T]::copy_from_slice', 'impl#[T]::clone_from_slice')
+def _copy_from_slice(it, key, raw, args):
+    d, s_ = as_slice(args[0]), as_slice(args[1])
+    if len(d) != len(s_):
+        raise Panic('copy_from_slice: source slice length (%d) does not match destination slice length (%d)' % (len(s_), len(d)))
+    for a, b in zip(d.cells(), s_.cells()):
+        a.v = deep_clone(b.v)
+    return UNIT
+
+
 @model('impl#[T]::reverse')
 def _slice_reverse(it, key, raw, args):
     sl = as_slice(args[0])
@@ -1183,6 +1193,15 @@ def _opt_unwrap_or_default(it, key, raw, args):
         return o.fields[0].v
     m = re.match(r'.*Option::<(.*)>::unwrap_or_default$', raw)
     return default_of(it, m.group(1))
+
+
+@model('Result::unwrap_or_default')
+def _res_unwrap_or_default(it, key, raw, args):
+    o = args[0]
+    if o.variant == 0:
+        return o.fields[0].v
+    m = re.match(r'.*Result::<(.*)>::unwrap_or_default$', raw)
+    return default_of(it, split_top(m.group(1))[0])
 
 
 @model('Option::unwrap_or_else')
